@@ -10,7 +10,8 @@ tokens (<x> = A | B):
   i<x>s  i<x>a        issue sync / async          f<x>             `_async_request` whose send raises
   w<x><seq>           await                       d<x>             deliver (serve one message)
   F<x><o>:<val>       finish; <o> = v value, r ref, x raise, u undecodableArgs, e unencodableResult,
-                      p unserializableExc
+                      p unserializableExc, b raiseBase (a BaseException that is not an Exception), l raiseLocal
+                      (SystemExit / KeyboardInterrupt with its propagate_*_locally switch on)
   j<x><R|X><seq>:<val>   hand-built REPLY / EXCEPTION frame towards <x>
 
 output: `acc=<accepted>/<total> wire=<sender>:<msg code>:<seq>,... A[...] B[...]`
@@ -27,6 +28,8 @@ def parseOutcome : Char → Option Outcome
   | 'v' => some .value
   | 'r' => some .ref
   | 'x' => some .raise
+  | 'b' => some .raiseBase
+  | 'l' => some .raiseLocal
   | 'u' => some .undecodableArgs
   | 'e' => some .unencodableResult
   | 'p' => some .unserializableExc
